@@ -250,6 +250,21 @@ func (s LWs) Close() (err error) {
 	return
 }
 
+// SetLevel tells every member that wants to know (LevelSettable) the severity
+// of the record that is about to be written. printOut sees the writers of a
+// severity as one LWs value, so the members have to be asked here.
+func (s LWs) SetLevel(lvl Level) {
+	for _, w := range s {
+		if xl, ok := w.(*logwr); ok {
+			if x, ok := xl.Writer.(LevelSettable); ok {
+				x.SetLevel(lvl)
+			}
+		} else if x, ok := w.(LevelSettable); ok {
+			x.SetLevel(lvl)
+		}
+	}
+}
+
 func (s LWs) Write(p []byte) (n int, err error) {
 	// TO/DO implement me
 	// /panic("implement me")
